@@ -26,7 +26,11 @@ PROP = dict(
           "ratio and 1/cos for triangle hits, (B^2+4A(v.v+r^2))/sqrt(disc) for sphere roots) and the worst error/formula ratio is "
           "recorded. Truth-valued results (hit / miss, side, front) are judged only outside the margin the same formula gives; cases "
           "inside it are counted as skipped_*. Line pairs with |sin| < 1e-3 that are not exactly parallel are only required to give "
-          "finite results and points on their lines. A case is distinct by the hash of its stored inputs (capped lower bound); every "
+          "finite results and points on their lines; for exactly parallel lines (bit-identical or negated stored directions) distanceTo "
+          "must equal the point-line distance and closestPoints must either return false or a genuinely closest pair "
+          "(key closestPoints.<type>:parallel_lines_true_but_not_closest); closestPoints == false is accepted while sin^2 < 64 eps. "
+          "Calibration (thorough tier, 1.1*10^9 cases, pristine tree): worst error/formula ratios 0.3 .. 14.7, every bound B is >= 8x "
+          "the worst ratio of its check (B = 8 .. 128, see the constants at the top of the three sources). A case is distinct by the hash of its stored inputs (capped lower bound); every "
           "generated case is non-trivial (no class is a no-op)."),
     assumptions=["long double / libquadmath arithmetic (+ - * / sqrt sin cos) is correct to its own precision",
                  "Line3::dir is what Line3's constructor (or a copy / negation of such a direction) stores: the functions' documented precondition 'direction is normalized' is honoured",
